@@ -63,6 +63,12 @@ SWAP_NAME = {"appendleft": "append", "argmin": "argmax", "fullmatch": "match", "
              "concatenate": "hstack", "zeros": "ones"}
 
 
+BOUNDARY_CMP = {ast.Lt: ast.LtE, ast.LtE: ast.Lt, ast.Gt: ast.GtE, ast.GtE: ast.Gt}
+UNWRAP = {"sorted", "abs", "list", "set", "tuple", "reversed", "float", "int", "str", "repr", "iter"}
+SWAP_FUNC = {"min": "max", "max": "min", "any": "all", "all": "any", "repr": "str", "str": "repr", "setattr": "object.__setattr__"}
+del SWAP_FUNC["setattr"]
+
+
 def functions(tree):
     out = {}
     for n in tree.body:
@@ -104,6 +110,37 @@ def mutants_of(fn):
         if isinstance(n, ast.Return) and n.value is not None and isinstance(n.value, ast.Call) and isinstance(n.value.func, ast.Attribute) \
                 and n.value.func.attr == "copy":
             out.append(("drop-copy", ast.unparse(n)[:60], k, "dropcopy"))
+    # second generation (session 5): appended after the first so that the (function, k, how) identity of older mutants is unchanged
+    for k, n in enumerate(nodes):
+        if isinstance(n, ast.Compare) and len(n.ops) == 1 and type(n.ops[0]) in BOUNDARY_CMP:
+            out.append(("boundary-cmp", ast.unparse(n)[:60], k, "cmpb"))
+        if isinstance(n, ast.BoolOp):
+            out.append(("and-or", ast.unparse(n)[:60], k, "andor"))
+        if isinstance(n, ast.Call):
+            for i, kw in enumerate(n.keywords):
+                if kw.arg is not None:
+                    out.append(("drop-kwarg", f"{kw.arg}= in {ast.unparse(n.func)[:40]}", k, f"dropkw:{i}"))
+            if isinstance(n.func, ast.Name) and n.func.id in UNWRAP and len(n.args) == 1 and not n.keywords \
+                    and not isinstance(n.args[0], (ast.Starred, ast.GeneratorExp)):
+                out.append(("unwrap-call", ast.unparse(n)[:60], k, "unwrap"))
+            if isinstance(n.func, ast.Name) and n.func.id == "isinstance" and len(n.args) == 2 and isinstance(n.args[1], ast.Tuple) \
+                    and len(n.args[1].elts) >= 2:
+                out.append(("narrow-isinstance", ast.unparse(n)[:60], k, "narrowisi"))
+            if isinstance(n.func, ast.Name) and n.func.id in SWAP_FUNC:
+                out.append(("swap-func", ast.unparse(n)[:60], k, "func"))
+        if isinstance(n, ast.If) and n.orelse and not (len(n.orelse) == 1 and isinstance(n.orelse[0], ast.If)):
+            out.append(("drop-else", ast.unparse(n.test)[:60], k, "dropelse"))
+        if isinstance(n, ast.If) and not n.orelse and not isinstance(n.test, ast.Constant):
+            out.append(("always-true", ast.unparse(n.test)[:60], k, "true"))
+        if isinstance(n, ast.UnaryOp) and isinstance(n.op, ast.USub) and not isinstance(n.operand, ast.Constant):
+            out.append(("drop-usub", ast.unparse(n)[:60], k, "dropnot"))
+        if isinstance(n, ast.Constant) and isinstance(n.value, bool):
+            out.append(("flip-bool", ast.unparse(n), k, "flipbool"))
+        if isinstance(n, ast.AugAssign):
+            out.append(("del-augassign", ast.unparse(n)[:60], k, "delstmt"))
+        if isinstance(n, ast.Compare) and len(n.ops) == 1 and isinstance(n.ops[0], (ast.Is, ast.IsNot)) \
+                and isinstance(n.comparators[0], ast.Constant) and n.comparators[0].value is None:
+            out.append(("none-to-falsy", ast.unparse(n)[:60], k, "nonefalsy"))
     return out
 
 
@@ -147,6 +184,36 @@ def apply(fn, k, how):
     if how == "dropcopy":
         n.value = n.value.func.value
         return True
+    if how == "cmpb":
+        n.ops = [BOUNDARY_CMP[type(n.ops[0])]()]
+        return True
+    if how == "andor":
+        n.op = ast.Or() if isinstance(n.op, ast.And) else ast.And()
+        return True
+    if how.startswith("dropkw:"):
+        del n.keywords[int(how.split(":")[1])]
+        return True
+    if how == "unwrap":
+        return replace(n, n.args[0])
+    if how == "narrowisi":
+        n.args[1] = n.args[1].elts[0]
+        return True
+    if how == "func":
+        n.func.id = SWAP_FUNC[n.func.id]
+        return True
+    if how == "dropelse":
+        n.orelse = []
+        return True
+    if how == "true":
+        n.test = ast.copy_location(ast.Constant(True), n.test)
+        return True
+    if how == "flipbool":
+        n.value = not n.value
+        return True
+    if how == "nonefalsy":
+        neg = isinstance(n.ops[0], ast.Is)
+        new = ast.UnaryOp(op=ast.Not(), operand=n.left) if neg else n.left
+        return replace(n, ast.copy_location(new, n))
     return False
 
 
